@@ -13,6 +13,18 @@ CHECKS = {
  "C11": dict(engine="primmon", category="exploration", technique="runtime monitor: naive Vec<bool> reference model compared after every operation (destination bytes, cursor, buffer length, padding bits), bounded-exhaustive grid + random operation histories, checked + wrapping builds, Miri slice (thorough)",
    text="Every BitRead/BitWrite entry point of (&[u8],&mut usize), (&mut [u8],&mut usize), BitBuffer and Bits is executed for all (src_offset, dst_position, len) in [0,33]^3 (quick; [0,41]^3 thorough) over buffers of 0..3 (0..5) bytes with four fill patterns - including out-of-range arguments, which must fail with Err and leave bytes and cursor untouched - plus random tuples to 64 bytes and random histories of up to 60 mixed operations on a BitBuffer mirrored on the model; after each operation the monitor compares every destination bit, the cursor, byte_len == ceil(bit_len/8) and zero padding. All 1024 (src%8, dst%8, len%8, len>16) classes must be seen (coverage floor).",
    design_ref="5 (C11)", note="trusted: the Vec<bool> model; BitBuffer's read cursor is only observable through subsequent reads (drain at the end of each history)"),
+ "C07": dict(engine="frontmon", category="exploration", technique="runtime monitor: canonical-projection equality between an independent AST (own printer + own resolver) and asn1rs's parsed+resolved model, over grammar-generated modules; all differences per module reported with construct-level signatures; production-coverage floor",
+   text="Random modules covering every production of the supported subset are printed and pushed through the real Tokenizer, Model::try_from and try_resolve; a projection P of the result (names, order, kinds, ranges incl. MIN/MAX, named numbers, SIZE forms and extensibility, tags with class, OPTIONAL/DEFAULT and literals, extension position, imports, OIDs, value assignments) must equal P of the generator's own AST. Every production has a coverage floor. Recorded deviations are pinned by exact signature and, for bstring literals, by a deviation model of the stored octets.",
+   design_ref="5 (C07)", note="trusted: my printer/resolver/projection; two identifications only (SIZE(0..MAX) = none, SIZE(n..n) = SIZE(n)); (MIN..MAX) = unconstrained"),
+ "C13": dict(engine="frontmon", category="exploration", technique="runtime monitor: R-lexer (expected tokens with line/column derived from lexical items + chosen separators) compared with Tokenizer::parse on re-layouts; model equality against the canonical layout; separator-kind coverage floor",
+   text="Each generated module is re-laid out 20 times by a token-level printer choosing separators from 15 kinds (blank, tab, LF, CRLF, line comments spaced/attached, block comments spaced/attached/nested/with dashes/with stars/banner/multi-line, empty) under 6 styles; the real tokenizer's tokens must equal the R-lexer's in kind, content, line and column, and Model::try_from must equal the canonical layout's model field by field.",
+   design_ref="5 (C13)", note="trusted: R-lexer; string literals avoid '--' and '/*'; comment texts never contain comment delimiters other than the generated ones"),
+ "C14": dict(engine="frontmon", category="fault_enumeration", technique="fault injection (1..4 token/char faults on valid modules, token soups) with panic journal, fork sandbox (aborts, watchdog) and an error-token-at-location oracle through all five front-end stages",
+   text="40000 (quick) / 2 million (thorough) faulty inputs derived from generated modules and from the repository's own inline test modules run through Tokenizer, parser, resolver, Rust model + generator and protobuf model + generator under catch_unwind in forked batches. Any panic other than the documented unterminated-comment one (recognised by message and by the input really having an open block comment), any abort or reproducible watchdog timeout is a violation; every parse error must carry a token that is found at its reported location in the input.",
+   design_ref="5 (C14)", note="'never hangs' = finishes within the batch watchdog with isolate-and-repeat; stack exhaustion by thousands of nesting levels is outside the fault model"),
+ "C15": dict(engine="frontmon", category="exploration", technique="runtime monitor: reference model R-inttype compared with Model::to_rust() and with the generated accessor text, exhaustive over the boundary set",
+   text="All ordered bound pairs over B = {0, +-1, +-2^k, +-2^k+-1 (k <= 63)} u [-20,20], each bound also MIN/MAX, plain and extensible (163k constraints thorough; a strided 57k quick), as tuple type and as SEQUENCE field, fed to the real to_rust(); the chosen RustType must hold [lo,hi], have the right signedness, be the narrowest, be 64 bit for MIN/MAX/extensible; the generated *_min()/*_max() accessors are parsed from RustCodeGenerator output and compared with the declared bounds (open ends must not be cut off).",
+   design_ref="5 (C15)", note="trusted: R-inttype as stated in DESIGN.md; 22 recorded signatures for the (MIN..ub)/unconstrained mapping (known findings)"),
 }
 
 NOT_YET = {}
